@@ -354,6 +354,8 @@ func runC11(r *run) {
 	}
 	c11SkipChildren(r)
 	noColorEnvironment(r.violate)
+	envProbe(r, false, "color", "NO_COLOR=1")
+	envProbe(r, true, "color", "NO_COLOR=true")
 	// JSON loggers under go test with error values: the records keep the JSON shape (the twin binary, oracle only)
 	if exe := os.Getenv("VERIF_HARNESS"); exe != "" {
 		if err := r.mergeChild(exec.Command(exe+".test", "-test.v", "c11test", fmt.Sprint(r.seed), r.tier)); err != nil {
